@@ -17,7 +17,7 @@ RULE = ('1-5 always-on ledger processes with constant or invocation-indexed time
         'calls, run lengths not divisible by the timesteps, several forced completions per sequence, nonzero '
         'initial time, every sequence ends with update(); non-trivial = >=2 processes or >=3 calls, and at least '
         'one interval truncated by forced completion or deferred across a call boundary; distinct = distinct spec')
-PLAN = {'quick': {'n': 8000, 'min_cases': 1500}, 'thorough': {'n': 250000, 'min_cases': 30000}}
+PLAN = {'quick': {'n': 20000, 'min_cases': 1500}, 'thorough': {'n': 250000, 'min_cases': 30000}}
 REQUIRED_ORACLES = ['contiguous', 'argument_is_interval', 'requested_or_truncated', 'sum_is_elapsed',
                     'clock_accumulator', 'nothing_pending']
 ANCHORS = ['vivarium.core.engine:Engine.run_for', 'vivarium.core.engine:Engine.update',
